@@ -13,7 +13,7 @@ structure St where
 def step (s : St) (ts : List String) : St × Verdict × List String :=
   let (a, out) := splitArrow ts
   match a with
-  | ["new", cap] => ({ sb := SB.new (nat! cap), busy := [] }, .ok, ["history", s!"cap={cap}"])
+  | ["cfg", cap] => ({ sb := SB.new (nat! cap), busy := [] }, .ok, ["history", s!"cap={cap}"])
   | ["prep", fits, _] =>
     let (sb', res) := s.sb.prepare (fits = "1")
     let allBusy := s.busy.length ≥ s.sb.free.length
